@@ -117,8 +117,10 @@ def texts(form, e1, e2, rnd):
     if form == "brace":
         return "{" + spell(e1.tokens(), rnd) + "}", f"I({spell(e1.tokens())})"
     sp = rnd.choice(["", " "])
-    messy = f"rec({spell(e1.tokens(), rnd)},{sp}0.5 ,{sp}k{sp}={sp}{spell(e2.tokens(), rnd)}, s='x y')"
-    canon = f"rec({spell(e1.tokens())}, 0.5, k={spell(e2.tokens())}, s='x y')"
+    # the string literal reaches the callee exactly as written (blanks inside a literal are part of the value)
+    lit = rnd.choice(["'x y'", "'x y'", "'x  y'", "' x y '", "'x\ty'", '"x   y"', "'x   y  z'"])
+    messy = f"rec({spell(e1.tokens(), rnd)},{sp}0.5 ,{sp}k{sp}={sp}{spell(e2.tokens(), rnd)}, s={lit})"
+    canon = f"rec({spell(e1.tokens())}, 0.5, k={spell(e2.tokens())}, s={lit})"
     return messy, canon
 
 
@@ -202,7 +204,9 @@ def _chunk(task):
             if len(ga) != len(wa) or set(gk) != set(wk) or not all(same_value(x, y_) for x, y_ in zip(ga[:2], wa[:2])) \
                     or not same_value(gk["k"], wk["k"]) or gk["s"] != wk["s"]:
                 err = "value: the callee received different positional/keyword arguments than under Python's eval"
-        if err is None and names != [canon]:
+        irregular = form == "rec" and ("  " in canon or "\t" in canon or "' " in canon)
+        # (a literal with irregular blanks: the value is judged above; how such a literal is spelled in the name is left open)
+        if err is None and names != [canon] and not irregular:
             err = f"name: term is named {names}, expected the normalised source text {canon!r}"
         res.append((f, cls, err or "ok"))
     return res
@@ -214,7 +218,7 @@ IDENTITY_CASES = [
     ("y ~ 0 + rec(a, s='u') + rec(a, s='v')", 2), ("y ~ 0 + rec(a, s='u') + rec(a, s=\"u\")", 2), ("y ~ 0 + h(a) + h( a )", 1),
     ("y ~ 0 + rec(a, k=2, s='u') + rec(a, k=2, s='u')", 1), ("y ~ 0 + rec(a + b) + rec(a+b)", 1),
     ("y ~ 0 + rec(a, k=1):rec(a, k=2)", 1), ("y ~ 0 + rec(a, k=9007199254740993) + rec(a, k=9007199254740992)", 2),
-    ("y ~ 0 + rec(a, k=+b) + rec(a, k=b)", 2), ("y ~ 0 + {a + 1} + I(a + 1)", 1), ("y ~ 0 + rec(a, k=h(b)) + rec(a, k=h(c))", 2),
+    ("y ~ 0 + rec(a, k=+b) + rec(a, k=b)", 2), ("y ~ 0 + rec(a, s='u v') + rec(a, s='u  v')", 2), ("y ~ 0 + rec(a, s='u\tv') + rec(a, s='u v')", 2), ("y ~ 0 + {a + 1} + I(a + 1)", 1), ("y ~ 0 + rec(a, k=h(b)) + rec(a, k=h(c))", 2),
 ]
 
 
@@ -234,7 +238,7 @@ def PROOFS():
     return [("vf.contracts.call_resolver_c", [R + "LazyValue.eval"] + [R + c for c in (
         "LazyValue.__eq__", "LazyCall.__eq__", "LazyOperator.__eq__", "LazyVariable.__eq__")]),
             # literal scanning: the literal of a NUMBER / STRING / PYTHON_LITERAL token is Python's reading of exactly its text
-            ("vf.contracts.scanner_c", ["formulae.scanner.Scanner." + f for f in ("add_token", "floatnum", "number", "identifier", "char")]),
+            ("vf.contracts.scanner_c", ["formulae.scanner.Scanner." + f for f in ("__init__", "add_token", "floatnum", "number", "identifier", "char")]),
             ("vf.contracts.variable_c", ["formulae.terms.call.Call.__eq__", "formulae.terms.call.Call.__hash__"]),
             # the lazy object built for the arguments mirrors the parsed expression node by node, with Python's operator for every
             # operator token (all visit methods, dynamic dispatch through accept, resolve)
